@@ -253,7 +253,7 @@ Section ctl_steps.
       destruct (ptracker (ctl s) !! sd) as [X|] eqn:HX; [|simpl in Hp; set_solver]. simpl in Hp.
       assert (Hn : sd ∉ topurge).
       { intros Hin. apply elem_of_filter in Hin as [Hcond HI]. apply andb_prop in Hcond as [Hnd0 _].
-        unfold no_dependants in Hnd0. rewrite Hpt1, HX in Hnd0. simpl in Hnd0. rewrite bool_decide_eq_true_2 in Hnd0 by done.
+        unfold no_dependants in Hnd0. rewrite Hpt1, HX in Hnd0. simpl in Hnd0. rewrite (bool_decide_eq_true_2 (sd ∈ I)) in Hnd0 by done.
         apply bool_decide_eq_true in Hnd0. set_solver. }
       split; [done|]. rewrite Hpt2, decide_False, Hpt1, HX by done. simpl. case_bool_decide; set_solver. }
     assert (Eong : ∀ w, default ∅ (<[w0 := X0 ∖ {[t0]}]> (ongoing (ctl s)) !! w) =
@@ -282,7 +282,7 @@ Section ctl_steps.
         apply elem_of_singleton in Hin as ->. rewrite decide_True in Ho by done. set_solver.
       + destruct Hcase as [?|[? Hp]]; [by left|]. right. split; [done|].
         rewrite (list_remove_elem _ _ _ _ Hrm) in Hp. destruct Hp as [Heq|?]; [|done].
-        injection Heq as _ Heq. apply last_out_inj in Heq. done.
+        exfalso. apply Hne. injection Heq as _ Heq. unfold last_out in Heq. congruence.
     - (* i_pub *) intros w d Hin. destruct (i_pub _ _ _ Hinv _ _ (Hsub _ Hin)) as (? & ? & ? & Hl & Hst). repeat split; auto.
       intros Heq. specialize (Hl Heq). rewrite Eong. destruct (decide (w0 = w)) as [<-|Hne]; [|done].
       rewrite HX0' in Hl. assert (d.1 ≠ t0); [|set_solver]. intros Hd1. apply (Hgone w0). rewrite <- Hd1, <- Heq. done.
@@ -320,7 +320,7 @@ Section ctl_steps.
     - (* i_xfer *) intros d src tgt Hy. destruct (i_xfer _ _ _ Hinv _ _ _ Hy) as (? & Hq & ? & ? & ? & w & t & Hw & Hh & Hd).
       repeat split; auto; [|eauto]. intros Hin. apply elem_of_union in Hin as [?|Hin]; [done|].
       destruct (i_wq _ _ _ Hinv _ _ Hw) as (_ & Ho & Ht & Hnf). destruct (i_ong _ _ _ Hinv _ _ Ho) as (Hnc & _).
-      assert (t ≠ t0) by (intros ->; done). by destruct (Hlive t d Ht Hnc H4 Hd).
+      assert (t ≠ t0) as Hne0 by (intros ->; done). by destruct (Hlive t d Ht Hnc Hne0 Hd).
     - apply (i_xfer_nodup _ _ _ Hinv).
     - apply (i_inputs _ _ _ Hinv).
     - apply (i_fq _ _ _ Hinv).
@@ -331,5 +331,225 @@ Section ctl_steps.
     - pose proof (i_pay_nodup _ _ _ Hinv) as H. by rewrite Hpay in H.
     - intros d v Ho. destruct (i_out _ _ _ Hinv _ _ Ho) as (? & ? & ? & Hnp & ?). repeat split; auto.
       intros Hin. apply Hnp. rewrite Hpay. done.
+  Qed.
+
+  (* ---------------------------------------------------------------- assign + act + plan *)
+  Lemma new_xfers_spec (srcs : gmap ds host) (h : host) (y : ds * host * host) :
+    y ∈ ((λ p : ds * host, (p.1, p.2, h)) <$> map_to_list srcs) ↔ ∃ d src, srcs !! d = Some src ∧ y = (d, src, h).
+  Proof.
+    rewrite elem_of_list_fmap. split.
+    - intros ([d src] & -> & Hin). apply elem_of_map_to_list in Hin. eauto.
+    - intros (d & src & Hs & ->). exists (d, src). split; [done|]. by apply elem_of_map_to_list.
+  Qed.
+
+  Lemma inv_assign s w t srcs c' h :
+    Inv J E s → assign_c J E (ctl s) w t srcs = Next (c', h) → wq s !! w = None →
+    Inv J E {| ctl := c'; store := store s; wq := <[w := t]> (wq s);
+               xfers := xfers s ++ ((λ p, (p.1, p.2, h)) <$> map_to_list srcs);
+               fetches := fetches s; purges := purges s; pool := pool s;
+               dispatched := dispatched s ++ [(w, t)]; finished := finished s |}.
+  Proof.
+    intros Hinv Ha Hwq. unfold assign_c in Ha.
+    destruct (e_host E !! w) as [h'|] eqn:Hh; [|done].
+    destruct (negb _) eqn:Hen in Ha; [done|]. apply negb_false_iff in Hen.
+    apply andb_prop in Hen as [Hen Hgpu]. apply andb_prop in Hen as [Htc Hwi].
+    apply bool_decide_eq_true in Htc, Hwi.
+    case_bool_decide as Hnf; [done|].
+    destruct (negb _) eqn:Hval in Ha; [done|]. apply negb_false_iff in Hval.
+    apply andb_prop in Hval as [Hdom Hsrc]. apply bool_decide_eq_true in Hdom, Hsrc.
+    destruct (i_idle _ _ _ Hinv _ Hwi) as (_ & Hong0 & _).
+    destruct (i_comp _ _ _ Hinv _ Htc) as (Htask & Hnc & Hseen & Hndisp).
+    assert (Htr : tracker (ctl s) !! t = None).
+    { destruct (tracker (ctl s) !! t) as [X|] eqn:HX; [|done]. by destruct (i_tr _ _ _ Hinv _ _ HX) as (_ & _ & _ & ? & _). }
+    assert (Hnfin : t ∉ finished s).
+    { intros Hf. by destruct (i_fin_disp _ _ _ Hinv _ Hf) as [? _]. }
+    set (m2 := ds2host (ctl s) ∪ prep_map h' (ins J t ∪ outs J t)) in *.
+    assert (∃ Y, c' = {| computable := computable (ctl s) ∖ {[t]}; tracker := tracker (ctl s);
+                      idle := idle (ctl s) ∖ {[w]}; ongoing := <[w := Y]> (ongoing (ctl s));
+                      ds2host := m2; ptracker := ptracker (ctl s); pqueue := pqueue (ctl s); fqueue := fqueue (ctl s);
+                      fetched := fetched (ctl s); outputs := outputs (ctl s); remaining := remaining (ctl s);
+                      seen := seen (ctl s); completed := completed (ctl s); purged := purged (ctl s) |} ∧ h = h' ∧ Y = {[t]})
+      as (Y & -> & -> & ->).
+    { unfold ong in Hong0. destruct (ongoing (ctl s) !! w) as [X|] eqn:HX; simpl in Hong0.
+      - subst X. case_bool_decide; [set_solver|]. injection Ha as <- <-. eexists. split; [reflexivity|]. split; [done|]. set_solver.
+      - injection Ha as <- <-. eexists. split; [reflexivity|]. done. }
+    clear Ha.
+    assert (Hlive : ∀ d, d ∈ ins J t → d ∉ purged (ctl s) ∧ d ∉ pqueue (ctl s)).
+    { intros d Hd. by apply (live_not_purged J E wf_nout s t d). }
+    assert (Hneeds : ∀ d, d ∈ dom srcs ↔ d ∈ ins J t ∧ ds2host (ctl s) !! (d, h') = None).
+    { intros d. rewrite Hdom. unfold needs. rewrite elem_of_filter. tauto. }
+    assert (Hnewx : ∀ d src, srcs !! d = Some src →
+              d ∈ ins J t ∧ ds2host (ctl s) !! (d, h') = None ∧ ds2host (ctl s) !! (d, src) = Some true).
+    { intros d src Hs. assert (d ∈ dom srcs) as Hd by (apply elem_of_dom; eauto). apply Hneeds in Hd as [? ?].
+      split; [done|]. split; [done|]. by apply (Hsrc d src). }
+    assert (Eong : ∀ w', default ∅ (<[w := {[t]}]> (ongoing (ctl s)) !! w') = if decide (w = w') then {[t]} else ong (ctl s) w')
+      by (intros w'; apply ong_insert).
+    constructor; simpl; unfold ong, ptr; simpl.
+    - (* i_idle *) intros w' Hw'. apply elem_of_difference in Hw' as [Hw' Hne]. assert (w ≠ w') by set_solver.
+      rewrite Eong, decide_False, lookup_insert_ne by done. apply (i_idle _ _ _ Hinv _ Hw').
+    - (* i_wq *) intros w' t' Hw'. rewrite Eong. destruct (decide (w = w')) as [<-|Hne].
+      + rewrite lookup_insert in Hw'. injection Hw' as <-. rewrite Hh. repeat split; auto. set_solver.
+      + rewrite lookup_insert_ne in Hw' by done. apply (i_wq _ _ _ Hinv _ _ Hw').
+    - (* i_wq_outs *) intros w' t' h2 Hw' Hh2 d Hd Hp. destruct (decide (w = w')) as [<-|Hne].
+      + rewrite lookup_insert in Hw'. injection Hw' as <-. assert (h2 = h') as -> by congruence.
+        apply prep_union_is_Some. right. split; [set_solver|done].
+      + rewrite lookup_insert_ne in Hw' by done. apply prep_union_is_Some. left. eapply (i_wq_outs _ _ _ Hinv); eauto.
+    - (* i_ong *) intros w' t' Ho. rewrite Eong in Ho. destruct (decide (w = w')) as [<-|Hne].
+      + apply elem_of_singleton in Ho as ->. repeat split; auto; [set_solver|apply elem_of_app; right; by apply elem_of_list_singleton|].
+        left. by rewrite lookup_insert.
+      + destruct (i_ong _ _ _ Hinv _ _ Ho) as (? & ? & ? & ? & Hcase). repeat split; auto; [set_solver|apply elem_of_app; by left|].
+        destruct Hcase as [?|?]; [left; by rewrite lookup_insert_ne|by right].
+    - (* i_pub *) intros w' d Hin. destruct (i_pub _ _ _ Hinv _ _ Hin) as (? & ? & ? & Hl & Hst). repeat split; auto.
+      intros Heq. specialize (Hl Heq). rewrite Eong. destruct (decide (w = w')) as [<-|Hne]; [|done].
+      unfold ong in Hong0. unfold ong in Hl. rewrite Hong0 in Hl. set_solver.
+    - apply (i_pub_nodup _ _ _ Hinv).
+    - apply (i_xev _ _ _ Hinv).
+    - apply (i_store_fin _ _ _ Hinv).
+    - intros h2 d Hin Hp. apply prep_union_is_Some. left. by apply (i_store_h2d _ _ _ Hinv).
+    - intros d h2 Hd Hp. apply prep_union_true in Hd. by apply (i_avail_store _ _ _ Hinv).
+    - intros d Hd Hp. destruct (i_seen_avail _ _ _ Hinv _ Hd Hp) as [h2 Hh2]. exists h2. by apply prep_union_true.
+    - apply (i_seen_fin _ _ _ Hinv).
+    - apply (i_purges _ _ _ Hinv).
+    - apply (i_pq _ _ _ Hinv).
+    - apply (i_ptr _ _ _ Hinv).
+    - (* i_comp *) intros t' Ht'. apply elem_of_difference in Ht' as [Ht' Hne]. destruct (i_comp _ _ _ Hinv _ Ht') as (? & ? & ? & Hnd). repeat split; auto.
+      rewrite fmap_app. intros Hin. apply elem_of_app in Hin as [?|Hin]; [done|]. simpl in Hin. apply elem_of_list_singleton in Hin. set_solver.
+    - (* i_tr *) intros t' X HX. destruct (i_tr _ _ _ Hinv _ _ HX) as (? & ? & Hnd & Hncomp & ? & ?). repeat split; auto; [|set_solver].
+      rewrite fmap_app. intros Hin. apply elem_of_app in Hin as [?|Hin]; [done|]. simpl in Hin. apply elem_of_list_singleton in Hin. subst. done.
+    - (* i_disp *) intros w' t' Hin. apply elem_of_app in Hin as [Hin|Hin].
+      + destruct (i_disp _ _ _ Hinv _ _ Hin) as (? & ? & ? & ?). repeat split; auto. set_solver.
+      + apply elem_of_list_singleton in Hin as [= -> ->]. repeat split; auto. set_solver.
+    - rewrite fmap_app. apply NoDup_app. split; [apply (i_disp_nodup _ _ _ Hinv)|]. split; [|apply NoDup_singleton].
+      intros x Hx Hx'. apply elem_of_list_singleton in Hx' as ->. done.
+    - (* i_completed *) intros t' Ht'. destruct (i_completed _ _ _ Hinv _ Ht') as [? Hn]. split; [done|]. intros w'. rewrite Eong.
+      destruct (decide (w = w')); [|apply Hn]. intros Hin. apply elem_of_singleton in Hin as ->. done.
+    - (* i_fin_disp *) intros t' Ht'. destruct (i_fin_disp _ _ _ Hinv _ Ht') as [Hd Hn]. split.
+      + rewrite fmap_app. apply elem_of_app. by left.
+      + intros w' Hw'. destruct (decide (w = w')) as [<-|Hne].
+        * rewrite lookup_insert in Hw'. injection Hw' as ->. done.
+        * rewrite lookup_insert_ne in Hw' by done. by eapply Hn.
+    - (* i_prep *) intros d h2 Hs Hp. apply prep_union_is_Some in Hs as [Hs|[Hd ->]].
+      + destruct (i_prep _ _ _ Hinv _ _ Hs Hp) as [?|[[src ?]|(w' & Hw' & ? & ?)]]; [by left|right; left; exists src; apply elem_of_app; by left|].
+        right. right. exists w'. rewrite lookup_insert_ne; [done|]. intros <-. congruence.
+      + destruct (ds2host (ctl s) !! (d, h')) as [b|] eqn:Hold.
+        * destruct (i_prep _ _ _ Hinv d h' ltac:(eauto) Hp) as [?|[[src ?]|(w' & Hw' & ? & ?)]]; [by left|right; left; exists src; apply elem_of_app; by left|].
+          right. right. exists w'. rewrite lookup_insert_ne; [done|]. intros <-. congruence.
+        * apply elem_of_union in Hd as [Hd|Hd].
+          -- assert (d ∈ dom srcs) as Hds by (apply Hneeds; done). apply elem_of_dom in Hds as [src Hsrc'].
+             right. left. exists src. apply elem_of_app. right. apply new_xfers_spec. eauto.
+          -- right. right. exists w. apply outs_spec in Hd as Hd'. destruct Hd' as [Hd1 _].
+             destruct d as [a b]. simpl in *. subst a. rewrite lookup_insert. done.
+    - (* i_xfer *) intros d src tgt Hin. apply elem_of_app in Hin as [Hin|Hin].
+      + destruct (i_xfer _ _ _ Hinv _ _ _ Hin) as (? & ? & ? & ? & ? & w' & t' & Hw' & ? & ?). repeat split; auto.
+        * by apply prep_union_true.
+        * apply prep_union_is_Some. by left.
+        * exists w', t'. rewrite lookup_insert_ne; [done|]. intros <-. congruence.
+      + apply new_xfers_spec in Hin as (d' & src' & Hs & [= -> -> ->]).
+        destruct (Hnewx _ _ Hs) as (Hd & Hnone & Hav). destruct (Hlive _ Hd) as [? ?]. repeat split; auto.
+        * by apply prep_union_true.
+        * apply prep_union_is_Some. right. split; [set_solver|done].
+        * intros Hst. pose proof (i_store_h2d _ _ _ Hinv _ _ Hst ltac:(done)) as [? ?]. congruence.
+        * exists w, t. by rewrite lookup_insert.
+    - (* i_xfer_nodup *) rewrite fmap_app. apply NoDup_app. split; [apply (i_xfer_nodup _ _ _ Hinv)|]. split.
+      + intros x Hx Hx'. apply elem_of_list_fmap in Hx as ([[d src] tgt] & -> & Hx). simpl in Hx'.
+        apply elem_of_list_fmap in Hx' as (y & Heq & Hy). apply new_xfers_spec in Hy as (d' & src' & Hs & ->). simpl in Heq.
+        injection Heq as -> ->. destruct (Hnewx _ _ Hs) as (_ & Hnone & _).
+        destruct (i_xfer _ _ _ Hinv _ _ _ Hx) as (_ & _ & _ & [? ?] & _). congruence.
+      + rewrite <- list_fmap_compose. apply NoDup_fmap_2_strong; [|apply NoDup_map_to_list].
+        intros [d1 s1] [d2 s2] H1 H2 Heq. simpl in Heq. injection Heq as ->.
+        apply elem_of_map_to_list in H1, H2. congruence.
+    - (* i_inputs *) intros w' t' h2 Hw' Hh2 d Hd. destruct (decide (w = w')) as [<-|Hne].
+      + rewrite lookup_insert in Hw'. injection Hw' as <-. assert (h2 = h') as -> by congruence.
+        destruct (ds2host (ctl s) !! (d, h')) as [b|] eqn:Hold.
+        * destruct (Hlive _ Hd) as [Hp _].
+          destruct (i_prep _ _ _ Hinv d h' ltac:(eauto) Hp) as [?|[[src ?]|(w' & Hw' & ? & ?)]]; [by left|right; exists src; apply elem_of_app; by left|].
+          exfalso. destruct (i_wq _ _ _ Hinv _ _ Hw') as (_ & _ & _ & Hnf'). apply Hnf'. apply (i_seen_fin _ _ _ Hinv). by apply Hseen.
+        * assert (d ∈ dom srcs) as Hds by (apply Hneeds; done). apply elem_of_dom in Hds as [src Hsrc'].
+          right. exists src. apply elem_of_app. right. apply new_xfers_spec. eauto.
+      + rewrite lookup_insert_ne in Hw' by done. destruct (i_inputs _ _ _ Hinv _ _ _ Hw' Hh2 _ Hd) as [?|[src ?]]; [by left|].
+        right. exists src. apply elem_of_app. by left.
+    - intros d h2 Hq. destruct (i_fq _ _ _ Hinv _ _ Hq) as (? & ? & ? & ? & ?). repeat split; auto. by apply prep_union_true.
+    - intros d src Hf. destruct (i_fetch _ _ _ Hinv _ _ Hf) as (? & ? & ? & ? & ?). repeat split; auto. by apply prep_union_true.
+    - apply (i_fetch_nodup _ _ _ Hinv).
+    - apply (i_pay _ _ _ Hinv).
+    - apply (i_pay_nodup _ _ _ Hinv).
+    - apply (i_out _ _ _ Hinv).
+  Qed.
+
+  (* ---------------------------------------------------------------- flush_queues *)
+  Lemma after_fetch_empty s :
+    Inv J E s →
+    filter (λ d, no_dependants (ptracker (ctl s)) d && not_required J (ctl s) d = true) (dom (fqueue (ctl s))) = ∅.
+  Proof.
+    intros Hinv. apply set_eq. intros d. split; [|set_solver]. intros Hd.
+    apply elem_of_filter in Hd as [Hcond Hdom]. apply elem_of_dom in Hdom as [h Hq].
+    destruct (i_fq _ _ _ Hinv _ _ Hq) as (He & Ho & _). apply andb_prop in Hcond as [_ Hnr].
+    unfold not_required, has_value in Hnr. rewrite Ho in Hnr. rewrite bool_decide_eq_false_2 in Hnr by auto. done.
+  Qed.
+
+  Lemma inv_flush s c' fl pl :
+    Inv J E s → flush_c J (ctl s) = (c', fl, pl) →
+    Inv J E {| ctl := c'; store := store s; wq := wq s; xfers := xfers s; fetches := fetches s ++ fl;
+               purges := purges s ++ pl; pool := pool s; dispatched := dispatched s; finished := finished s |}.
+  Proof.
+    intros Hinv Hf. unfold flush_c in Hf. rewrite (after_fetch_empty s Hinv) in Hf.
+    rewrite (right_id_L ∅ (∪)) in Hf.
+    set (pt' := filter _ (ptracker (ctl s))) in Hf.
+    assert (Hptr : ∀ d, pt' !! d = ptracker (ctl s) !! d).
+    { intros d. unfold pt'. etrans; [apply filter_notin_lookup|]. by rewrite decide_False by set_solver. }
+    clearbody pt'. injection Hf as <- <- <-.
+    assert (Hpl : ∀ h d, (h, d) ∈ (d ← elements (pqueue (ctl s)); (λ h, (h, d)) <$> elements (hosts_of (ds2host (ctl s)) d)) → d ∈ pqueue (ctl s)).
+    { intros h d Hin. apply elem_of_list_bind in Hin as (d' & Hin & Hd'). apply elem_of_elements in Hd'.
+      apply elem_of_list_fmap in Hin as (h' & [= -> ->] & _). done. }
+    assert (Hextq : ∀ d, d ∈ j_ext J → outputs (ctl s) !! d = None → d ∉ purged (ctl s) ∪ pqueue (ctl s)).
+    { intros d He Ho Hin. destruct (i_pq _ _ _ Hinv _ Hin) as (_ & _ & Hv). specialize (Hv He). unfold has_value in Hv. by rewrite Ho in Hv. }
+    constructor; simpl; unfold ong, ptr; simpl.
+    - apply (i_idle _ _ _ Hinv).
+    - apply (i_wq _ _ _ Hinv).
+    - intros w t h Hw Hh d Hd Hp. apply drop_lookup_is_Some. split; [|set_solver]. eapply (i_wq_outs _ _ _ Hinv); eauto. set_solver.
+    - apply (i_ong _ _ _ Hinv).
+    - intros w d Hin. destruct (i_pub _ _ _ Hinv _ _ Hin) as (? & ? & ? & ? & h & ? & Hst). repeat split; auto.
+      exists h. split; [done|]. intros Hp. apply Hst. set_solver.
+    - apply (i_pub_nodup _ _ _ Hinv).
+    - intros h d Hin. destruct (i_xev _ _ _ Hinv _ _ Hin) as [? Hst]. split; [done|]. intros Hp. apply Hst. set_solver.
+    - apply (i_store_fin _ _ _ Hinv).
+    - intros h d Hin Hp. apply drop_lookup_is_Some. split; [|set_solver]. apply (i_store_h2d _ _ _ Hinv); [done|set_solver].
+    - intros d h Hd Hp. apply drop_lookup in Hd as [Hd _]. apply (i_avail_store _ _ _ Hinv); [done|set_solver].
+    - intros d Hd Hp. destruct (i_seen_avail _ _ _ Hinv _ Hd ltac:(set_solver)) as [h Hh]. exists h. apply drop_lookup. split; [done|set_solver].
+    - apply (i_seen_fin _ _ _ Hinv).
+    - intros h d Hin. apply elem_of_app in Hin as [Hin|Hin]; [pose proof (i_purges _ _ _ Hinv _ _ Hin); set_solver|].
+      apply Hpl in Hin. set_solver.
+    - intros d Hd. rewrite Hptr. apply (i_pq _ _ _ Hinv). set_solver.
+    - intros t Ht Hc sd Hsd. rewrite Hptr. by apply (i_ptr _ _ _ Hinv).
+    - apply (i_comp _ _ _ Hinv).
+    - apply (i_tr _ _ _ Hinv).
+    - apply (i_disp _ _ _ Hinv).
+    - apply (i_disp_nodup _ _ _ Hinv).
+    - apply (i_completed _ _ _ Hinv).
+    - apply (i_fin_disp _ _ _ Hinv).
+    - intros d h Hs Hp. apply drop_lookup_is_Some in Hs as [Hs _]. apply (i_prep _ _ _ Hinv); [done|set_solver].
+    - intros d src tgt Hx. destruct (i_xfer _ _ _ Hinv _ _ _ Hx) as (? & ? & ? & ? & ? & ?). repeat split; auto; [set_solver|set_solver| |].
+      + apply drop_lookup. done.
+      + apply drop_lookup_is_Some. done.
+    - apply (i_xfer_nodup _ _ _ Hinv).
+    - apply (i_inputs _ _ _ Hinv).
+    - intros d h Hq. by rewrite lookup_empty in Hq.
+    - intros d src Hin. apply elem_of_app in Hin as [Hin|Hin].
+      + destruct (i_fetch _ _ _ Hinv _ _ Hin) as (He & Ho & ? & ? & ?). repeat split; auto; [set_solver|].
+        apply drop_lookup. split; [done|]. pose proof (Hextq _ He Ho). set_solver.
+      + apply elem_of_map_to_list in Hin. destruct (i_fq _ _ _ Hinv _ _ Hin) as (He & Ho & Hnf & ? & ?). repeat split; auto.
+        * apply elem_of_union. right. apply elem_of_dom. eauto.
+        * apply drop_lookup. split; [done|]. pose proof (Hextq _ He Ho). set_solver.
+        * intros Hp. apply elem_of_pay_ds in Hp as [v Hv]. by destruct (i_pay _ _ _ Hinv _ _ Hv) as (_ & _ & ? & _).
+    - rewrite fmap_app. apply NoDup_app. split; [apply (i_fetch_nodup _ _ _ Hinv)|]. split; [|apply NoDup_fst_map_to_list].
+      intros d Hd Hd'. apply elem_of_list_fmap in Hd as ([d1 s1] & -> & Hd). apply elem_of_list_fmap in Hd' as ([d2 s2] & Heq & Hd').
+      simpl in Heq. subst d2. apply elem_of_map_to_list in Hd'.
+      destruct (i_fetch _ _ _ Hinv _ _ Hd) as (_ & _ & ? & _). destruct (i_fq _ _ _ Hinv _ _ Hd') as (_ & _ & ? & _). done.
+    - intros d v Hin. destruct (i_pay _ _ _ Hinv _ _ Hin) as (? & ? & ? & ?). repeat split; auto. set_solver.
+    - apply (i_pay_nodup _ _ _ Hinv).
+    - intros d v Ho. destruct (i_out _ _ _ Hinv _ _ Ho) as (? & ? & Hnf & ? & ?). repeat split; auto; [set_solver|].
+      rewrite fmap_app. intros Hin. apply elem_of_app in Hin as [?|Hin]; [done|].
+      apply elem_of_list_fmap in Hin as ([d2 s2] & -> & Hin). apply elem_of_map_to_list in Hin. simpl in Ho.
+      destruct (i_fq _ _ _ Hinv _ _ Hin) as (_ & Ho' & _). congruence.
   Qed.
 End ctl_steps.
